@@ -758,6 +758,8 @@ class Segment:
             if isinstance(loc, tuple) and loc[0] == 'range':
                 return Effect('RANGE_WR', site, first=loc[1], last=loc[2], val=val)
             return Effect('OTHER_WR', site, loc=loc, val=val, field=None)
+        if k == 'stale-pos':
+            return Effect('STALE_POS', e[3], loc=e[1], val=e[2])
         if k == 'lwr':
             return Effect('LOCAL', e[3], loc=e[1], val=e[2], how=e[4] if len(e) > 4 else '=')
         if k == 'swap':
